@@ -117,9 +117,9 @@ def build_harness(name, extra=(), sanitize=False, opt="-O2"):
     """compile harness/<name>.cpp against the freshly built libraries; cached on source hash,
     header stamp and library stamp.  Uses the library's own NDEBUG/-std settings."""
     src = os.path.join(VERIF, "harness", name + ".cpp")
-    common = os.path.join(VERIF, "harness", "hcommon.h")
+    hdir = os.path.join(VERIF, "harness")
     h = hashlib.sha256()
-    for p in (src, common):
+    for p in [src] + sorted(os.path.join(hdir, f) for f in os.listdir(hdir) if f.endswith(".h")):
         if os.path.exists(p):
             h.update(open(p, "rb").read())
     h.update(header_stamp().encode())
